@@ -23,6 +23,12 @@ CLAIMS = {
  "C16": ("fault_enumeration", "8.C16", "deterministic simulation: error bursts (kind x length 1..4) injected at every exchange index of every tag operation",
          "Each seeded (tag class, layout, operation) scenario is dry-run to record its transcript, then re-run with one burst at every exchange index: outcome type (result / TagCommandError / documented None-False), errno for persisting errors on primitives, absorbed bursts must reproduce the fault-free result and command transcript.",
          "retry budgets taken from the implementation (3 attempts T1/T2/T3, n_retry T4; ISO-DEP does not retry protocol errors); vendor classes (NTAG, FeliCa Lite) join when their models exist"),
+ "C05": ("exploration", "8.C05", "deterministic simulation: two real LLCs over a pipe MAC; stepped interleavings and seeded thread schedules with pre-emption; sliding-window reference model on the wire",
+         "Seeded exploration of (a) stepped interleavings of send/recv/poll/busy/link-step operations and (b) thread schedules of blocking application threads against the two real llc.run() loops (pre-emption at synchronisation operations and at source lines of nfc.llcp.tco/llc, stalls in virtual time): delivery exactly once and in order per sender, and every I/RR/RNR on the wire checked against a reference window model (N(S) sequence, outstanding <= announced RW, N(R) never acknowledges unsent PDUs, payload <= MIU).",
+         "RW in 1..15 as quantified; pre-emption granularity is one source line; the link loops are switched but not stalled (a stalled loop is an LTO expiry, C09's subject)"),
+ "C10": ("exploration", "8.C10", "deterministic simulation: stepped walk filling all send queues, every collected frame measured by an independent wire reader",
+         "Seeded walks over socket operations, SNL floods, resolve() calls and link steps on two real link controllers with MIUs that are not multiples of 4, aggregation on/off: every frame out of collect() is measured against the MIU the peer put on the wire, every I/UI payload against link/connection MIU, len(pdu)==len(encode(pdu)), and the PDUs dispatched by the receiver must equal the PDUs collected by the sender.",
+         "frames containing harness-injected raw access point PDUs are exempt from the size clauses"),
 }
 NA = {
  "C11": "pure encode/decode function of its argument: no schedule, clock, fault, peer or history enters the statement; deterministic simulation adds nothing over input generation (DESIGN.md section 9)",
